@@ -288,7 +288,9 @@ CHECKS["C15"] = dict(
 CHECKS["C17"] = dict(
     title="Hash collisions between distinct keys never alias their entries",
     level="exploration",
-    rule=("two monitors with a harness BuildHasher (hash = key / 4: keys 0..3 share the full 64-bit hash, other keys only the shard): "
+    rule=("three monitors (the third: the stepped fetch-script engine of C06 on two keys that share their full 64-bit hash - arrivals, "
+          "lookup / origin resolutions, inserts incl. filtered ones, removes in seeded orders; every caller must be answered with "
+          "an entry of its own key and the protocol's value) with a harness BuildHasher (hash = key / 4: keys 0..3 share the full 64-bit hash, other keys only the shard): "
           "(a) the C02 concurrent-history monitor on the memory cache (linearizability per key + foreign-value detection, incl. "
           "get_or_fetch whose in-flight table is also keyed by hash), (b) the C01 scripted-history monitor on the hybrid cache "
           "(write queue, disk index by hash alone, one key on disk while its colliding partner is only queued, overwrite/remove of "
@@ -300,7 +302,8 @@ CHECKS["C17"] = dict(
     min_nontrivial=20,
     jobs=[dict(cmd="c17mem", tiers=["quick", "thorough"], timeout=1500),
           dict(cmd="c17hyb", tiers=["quick", "thorough"], timeout=2400),
-          dict(cmd="c17mem", flavour="tsan", tier_arg="quick", tiers=["thorough"], timeout=3000, shards=8, env={"TSAN_OPTIONS": "halt_on_error=1 second_deadlock_stack=1"})],
+          dict(cmd="c17mem", flavour="tsan", tier_arg="quick", tiers=["thorough"], timeout=3000, shards=8, env={"TSAN_OPTIONS": "halt_on_error=1 second_deadlock_stack=1"}),
+          dict(cmd="fetchseq", args={"prop": "C17"}, tiers=["quick", "thorough"], timeout=1800)],
 )
 
 
